@@ -1,7 +1,7 @@
 """C09 bounded run-time contract (labelled bounded): a schema means the same however its declarations are arranged.
 
-One namespace with 15 mutually forward-referencing globals (types, a substitution group, a model group, an attribute group, list and union
-types, a notation) (with a keyref that refers to a key declared on another element) and 6 probe instances.  Arrangements: seeded permutations; 2-3 way splits into include files in a sub-directory;
+One namespace with 23 mutually forward-referencing globals (types, a substitution group, a model group, an attribute group, list and union
+types, a notation) (with a keyref that refers to a key declared on another element) and 9 probe instances.  Arrangements: seeded permutations; 2-3 way splits into include files in a sub-directory;
 location spellings (relative, dotted, absolute, file URL, the same file included twice under two spellings); clear-and-rebuild; copy of
 the global maps followed by build(); pickle round trip.  Each arrangement must give the same global components and, for every probe, the
 same errors and the same decoded data as the reference arrangement.  Import order of two other namespaces is permuted as well.
@@ -25,6 +25,13 @@ DECLS = [
     '<xs:attributeGroup name="AG"><xs:attribute name="a" type="t:Code"/><xs:attribute ref="t:ga"/></xs:attributeGroup>',
     '<xs:attribute name="ga" type="t:Codes"/>',
     '<xs:notation name="n" public="p"/>',
+    # wildcards of attribute groups combined at build time: intersection in a type that uses two groups, union in an extension - whichever is built first
+    '<xs:attributeGroup name="W1"><xs:anyAttribute namespace="urn:a urn:b urn:c" processContents="skip"/></xs:attributeGroup>',
+    '<xs:attributeGroup name="W2"><xs:anyAttribute namespace="urn:a urn:b" processContents="skip"/></xs:attributeGroup>',
+    '<xs:complexType name="WT1"><xs:attributeGroup ref="t:W1"/><xs:attributeGroup ref="t:W2"/></xs:complexType>',
+    '<xs:complexType name="WB"><xs:attributeGroup ref="t:W1"/></xs:complexType>',
+    '<xs:complexType name="WD"><xs:complexContent><xs:extension base="t:WB"><xs:anyAttribute namespace="urn:d" processContents="skip"/></xs:extension></xs:complexContent></xs:complexType>',
+    '<xs:element name="w1" type="t:WT1"/>', '<xs:element name="wb" type="t:WB"/>', '<xs:element name="wd" type="t:WD"/>',
     '<xs:attributeGroup name="DAG"><xs:attribute name="uid" type="xs:int"/></xs:attributeGroup>',      # XSD 1.1: the default attribute group of every document of the schema
 ]
 HEAD = f'<xs:schema {XS} targetNamespace="urn:t" xmlns:t="urn:t" elementFormDefault="qualified">'
@@ -33,13 +40,14 @@ HEADS = {'1.0': HEAD, '1.1': HEAD[:-1] + ' defaultAttributes="t:DAG">'}
 
 def decls_for(ver):
     # the derived type inherits the default attributes of its base: it must not add them again (the builder rejects the duplicate)
-    return [d.replace('<xs:complexType name="DerT">', '<xs:complexType name="DerT" defaultAttributesApply="false">') if ver == '1.1' else d for d in DECLS]
+    return [d.replace('<xs:complexType name="DerT">', '<xs:complexType name="DerT" defaultAttributesApply="false">').replace('<xs:complexType name="WD">', '<xs:complexType name="WD" defaultAttributesApply="false">') if ver == '1.1' else d for d in DECLS]
 PROBES = [
     '<t:root xmlns:t="urn:t" a="5" t:ga="1 2"><t:head><t:v>7</t:v></t:head><t:member><t:v>1</t:v><t:w>1 2 50</t:w></t:member><t:x>true</t:x></t:root>',
     '<t:root xmlns:t="urn:t" a="51"><t:head><t:v>-1</t:v></t:head></t:root>',
     '<t:root xmlns:t="urn:t"><t:member><t:v>1</t:v><t:w>51</t:w></t:member><t:y>2020-02-30</t:y></t:root>',
     '<t:root xmlns:t="urn:t"><t:head><t:v>1</t:v><t:w>1</t:w></t:head><t:x>maybe</t:x></t:root>',
     '<t:root xmlns:t="urn:t" uid="1"><t:head uid="7"><t:v>7</t:v></t:head><t:member uid="x"><t:v>1</t:v></t:member></t:root>',      # attributes of the default attribute group (XSD 1.1)
+    '<t:wd xmlns:t="urn:t" xmlns:c="urn:c" c:x="1"/>', '<t:w1 xmlns:t="urn:t" xmlns:c="urn:c" xmlns:a="urn:a" c:x="1" a:y="2"/>', '<t:wb xmlns:t="urn:t" xmlns:c="urn:c" xmlns:d="urn:d" c:x="1" d:z="3"/>',
     '<t:root xmlns:t="urn:t"><t:head><t:v>7</t:v></t:head><t:x>7</t:x></t:root>',        # a keyref on the root that refers to a key declared on another element
 ]
 KINDS = ['permute', 'split', 'spell', 'twice', 'copy', 'pickle', 'imports', 'same-text']
@@ -110,7 +118,7 @@ def run(tier, seed, open_findings):
             if got != refs[ver]:
                 diff = got if got and got[0] == 'EXC' else ('globals differ' if got[0] != refs[ver][0] else 'probe results differ')
                 fails.append(dict(case=dict(ver=ver, kind=kind, seed=sd), observed=diff, required='same global components, errors and data as the reference arrangement'))
-        return [result('C09.arrangements', f'{len(jobs)} arrangements ({", ".join(KINDS)}) x 6 probe instances, both classes', len(jobs) * len(PROBES), fails,
+        return [result('C09.arrangements', f'{len(jobs)} arrangements ({", ".join(KINDS)}) x 9 probe instances, both classes', len(jobs) * len(PROBES), fails,
                        samples=[dict(kind='spell', note='the same file included twice under two spellings')], distinct=len(jobs))]
     finally:
         shutil.rmtree(root, ignore_errors=True)
